@@ -177,8 +177,12 @@ def configs(ss, rng, n):
         pp = [None, 0.3, 1.5][i % 3]
         dur = {1.0: 10, 0.5: 8, 0.25: 6, 0.4: 8, 1 / 12: 3, 0.2: 5}[dt]
         label = f'dt{dt:g}:gest{gest}:{"table" if i % 3 == 1 else fert}:mat{pmat}:neo{pneo}:burnin{int(burnin)}:{"+".join(nets) or "nonet"}:{"deaths" if deaths else "nodeaths"}:pp{pp}'
-        def mk(seed, dt=dt, gest=gest, fert=fert, pmat=pmat, pneo=pneo, burnin=burnin, nets=nets, deaths=deaths, pp=pp, dur=dur):
-            kw = dict(fertility_rate=fert, dur_pregnancy=ss.years(gest), p_maternal_death=ss.bernoulli(pmat), p_neonatal_death=ss.bernoulli(pneo), burnin=burnin)
+        gform = (i // 2) % 4
+        label += f':gunit{gform}'
+        def mk(seed, dt=dt, gest=gest, fert=fert, pmat=pmat, pneo=pneo, burnin=burnin, nets=nets, deaths=deaths, pp=pp, dur=dur, gform=gform):
+            # the same gestation written in years, months, weeks or days (i % 4)
+            gdur = [ss.years(gest), ss.dur(gest * 12, 'month'), ss.dur(gest * 365.25 / 7, 'week'), ss.dur(gest * 365.25, 'day')][gform]
+            kw = dict(fertility_rate=fert, dur_pregnancy=gdur, p_maternal_death=ss.bernoulli(pmat), p_neonatal_death=ss.bernoulli(pneo), burnin=burnin)
             if pp is not None: kw['dur_postpartum'] = ss.constant(ss.years(pp))
             dem = [ss.Pregnancy(**kw)] + ([ss.Deaths(death_rate=25)] if deaths else [])
             nw = [dict(pre=ss.PrenatalNet, post=ss.PostnatalNet, maternal=ss.MaternalNet)[k]() for k in nets]
@@ -311,6 +315,9 @@ def run(ctx):
             ts = [t for t in conc.get(e['mother'], []) if t <= e['ti']]
             if not ts or len(aterms) >= ctx.n(300, 3000): continue
             t0 = max(ts)
+            want_age = -meta['gest'] + (-t0 * dty if t0 < 0 else 0.0)
+            if abs(e['age'] - want_age) > 1e-3:
+                viol(f'{label}: the agent conceived at step {t0} by woman {e["mother"]} enters with age {e["age"]:.4f}; minus the gestation ({meta["gest"]} years{", aged to step 0" if t0 < 0 else ""}) is {want_age:.4f}', dict(W, **e, conceived=t0))
             aterms.append(f'({qlit(F(repr(meta["gest"])))}, ({t0})%Z, {qlit(F(repr(meta["dt"])) if abs(meta["dt"] * 12 - round(meta["dt"] * 12)) > 1e-9 or meta["dt"] in (1.0, 0.5, 0.25) else F(round(meta["dt"] * 12), 12))}, {qlit(e["age"])})')
             ameta.append(dict(W, **e, conceived=t0))
     # ---------------------------------------------------------------- direct-state probes: every valid state x every truth assignment of the time tests,
